@@ -1891,3 +1891,215 @@ func init() {
 		}
 	})
 }
+
+// ---------------------------------------------------------------- the CR-before-LF rule applies to the "\n" delimiter only (C07)
+
+// crRuleOnlyForNewline: a CR that precedes the segment delimiter is dropped only when the delimiter is exactly "\n"
+// (the documented newline-delimiter rule). The test for a trailing CR (bytes.HasSuffix(x, <[]byte("\r")>)) must be
+// control-dependent on the true edge of an equality test of the segment delimiter with the constant "\n" — directly, or
+// through a bool field whose only stores are such an equality test. Seed C07-15 widened it to "delimiter ends in LF":
+// with "~\n" or "\r\n" a data byte CR at the end of the last element disappeared.
+func crRuleOnlyForNewline(c *core.Ctx, rule, pkg string) {
+	c.SSA()
+	p := c.Pkg(pkg)
+	if p == nil {
+		c.Unresolved(rule, "package "+pkg, "not loaded")
+		return
+	}
+	// globals initialised with []byte("\r")
+	crGlobals := map[*ssa.Global]bool{}
+	sp := c.SSAPkg(pkg)
+	if ini := sp.Func("init"); ini != nil {
+		for _, b := range ini.Blocks {
+			for _, in := range b.Instrs {
+				if st, ok := in.(*ssa.Store); ok {
+					if g, ok := st.Addr.(*ssa.Global); ok {
+						v := st.Val
+						if cv, ok := v.(*ssa.Convert); ok {
+							v = cv.X
+						}
+						if s, ok := constString(v); ok && s == "\r" {
+							crGlobals[g] = true
+						}
+					}
+				}
+			}
+		}
+	}
+	var isNLEq func(v ssa.Value, d int) bool
+	isNLEq = func(v ssa.Value, d int) bool {
+		if d > 4 {
+			return false
+		}
+		switch x := v.(type) {
+		case *ssa.BinOp:
+			if x.Op != token.EQL {
+				return false
+			}
+			if s, ok := constString(x.X); ok && s == "\n" {
+				return true
+			}
+			if s, ok := constString(x.Y); ok && s == "\n" {
+				return true
+			}
+		case *ssa.UnOp:
+			if x.Op == token.MUL {
+				if fa, ok := x.X.(*ssa.FieldAddr); ok {
+					fv := core.FieldOfAddr(fa)
+					n, all := 0, true
+					for _, f := range c.RepoFunctions() {
+						if core.FuncPkg(f) != p.Types {
+							continue
+						}
+						for _, w := range core.Writes(f) {
+							if w.Kind == "field" && w.Field == fv {
+								n++
+								if !isNLEq(w.Val, d+1) {
+									all = false
+								}
+							}
+						}
+					}
+					return n > 0 && all
+				}
+			}
+		}
+		return false
+	}
+	n := 0
+	for _, f := range c.RepoFunctions() {
+		if core.FuncPkg(f) != p.Types {
+			continue
+		}
+		for _, ci := range core.Calls(f) {
+			if !core.IsCallTo(ci, "bytes", "HasSuffix") || len(ci.Common().Args) != 2 {
+				continue
+			}
+			u, ok := ci.Common().Args[1].(*ssa.UnOp)
+			if !ok {
+				continue
+			}
+			g, ok := u.X.(*ssa.Global)
+			if !ok || !crGlobals[g] {
+				continue
+			}
+			n++
+			key := core.FuncKey(f) + " trailing-CR test applies under the \"\\n\" delimiter only"
+			good := false
+			for _, ed := range controlDeps(f).controlling(ci.Block()) {
+				if ifi := ed.ifInstr(); ifi != nil && ed.succ == 0 && isNLEq(ifi.Cond, 0) {
+					good = true
+				}
+			}
+			c.Check(good, rule, key, core.InstrPos(ci), "control-dependent on the true edge of `segment delimiter == \"\\n\"`",
+				"the test for a CR in front of the segment delimiter is not guarded by an equality test of the delimiter with \"\\n\": for other delimiters a CR byte at the end of the last element is data and must reach the transform")
+		}
+	}
+	if n == 0 {
+		c.Unresolved(rule, "trailing-CR test", "no bytes.HasSuffix(x, []byte(\"\\r\")) in package "+pkg)
+	}
+}
+
+func init() {
+	wrapRun("C07", func(c *core.Ctx) {
+		if c.CountRule("R07k") == 0 {
+			crRuleOnlyForNewline(c, "R07k", "extensions/omniv21/fileformat/edi")
+		}
+	})
+}
+
+// blankTokenRuleUnconditional: tokens that consist of CR/LF only are skipped whatever the segment delimiter is (blank
+// lines at the end of, or between, segments). The function that classifies a token as CR/LF-only (recognised by shape:
+// a []byte -> (..., bool) function of the package that compares decoded runes with '\n' and '\r') must be applied to
+// every scanned token: its call must not be control-dependent on a condition that reads the reader's delimiter
+// configuration (seed C07-10 applied it for the "\n" delimiter only; a blank line then became "missing segment name").
+func blankTokenRuleUnconditional(c *core.Ctx, rule, pkg string) {
+	c.SSA()
+	p := c.Pkg(pkg)
+	if p == nil {
+		c.Unresolved(rule, "package "+pkg, "not loaded")
+		return
+	}
+	isClassifier := func(f *ssa.Function) bool {
+		if f == nil || f.Blocks == nil || core.FuncPkg(f) != p.Types || f.Signature.Recv() != nil || len(f.Params) != 1 {
+			return false
+		}
+		res := f.Signature.Results()
+		hasBool := false
+		for i := 0; i < res.Len(); i++ {
+			if b, ok := res.At(i).Type().Underlying().(*types.Basic); ok && b.Kind() == types.Bool {
+				hasBool = true
+			}
+		}
+		if !hasBool {
+			return false
+		}
+		seen := map[string]bool{}
+		for _, b := range f.Blocks {
+			for _, in := range b.Instrs {
+				if bo, ok := in.(*ssa.BinOp); ok && (bo.Op == token.EQL || bo.Op == token.NEQ) {
+					for _, v := range []ssa.Value{bo.X, bo.Y} {
+						if k, ok := v.(*ssa.Const); ok && k.Value != nil {
+							seen[k.Value.ExactString()] = true
+						}
+					}
+				}
+			}
+		}
+		return seen["10"] && seen["13"]
+	}
+	n := 0
+	for _, f := range c.RepoFunctions() {
+		if core.FuncPkg(f) != p.Types {
+			continue
+		}
+		for _, ci := range core.Calls(f) {
+			if !isClassifier(ci.Common().StaticCallee()) {
+				continue
+			}
+			n++
+			key := core.FuncKey(f) + " classifies every scanned token"
+			bad := token.NoPos
+			for _, ed := range controlDeps(f).controlling(ci.Block()) {
+				ifi := ed.ifInstr()
+				if ifi == nil {
+					continue
+				}
+				// a condition that reads a field of the reader other than through a call on the scanner
+				if c04DependsOn(ifi.Cond, func(v ssa.Value) bool {
+					u, ok := v.(*ssa.UnOp)
+					if !ok || u.Op != token.MUL {
+						return false
+					}
+					if _, isFA := u.X.(*ssa.FieldAddr); !isFA {
+						return false
+					}
+					if n := core.NamedOf(u.Type()); n != nil && n.Obj().Pkg() != nil && n.Obj().Pkg().Path() == "bufio" {
+						return false // the scanner itself: what it yields is input, not configuration
+					}
+					return true
+				}) {
+					if call, isCall := ifi.Cond.(*ssa.Call); isCall {
+						if o := core.CalleeObj(call); o != nil && o.Pkg() != nil && o.Pkg().Path() == "bufio" {
+							continue // for r.scanner.Scan()
+						}
+					}
+					bad = core.InstrPos(ifi)
+				}
+			}
+			c.Check(!bad.IsValid(), rule, key, core.InstrPos(ci), "the CR/LF-only classification runs for every token the scanner yields",
+				"whether a scanned token is checked for being CR/LF-only depends on the reader's configuration: for the configurations that skip the check a blank line is handed on as a segment and fails with 'missing segment name'")
+		}
+	}
+	if n == 0 {
+		c.Unresolved(rule, "CR/LF-only classifier", "no call of a []byte -> (.., bool) function comparing runes with '\\n' and '\\r' in package "+pkg)
+	}
+}
+
+func init() {
+	wrapRun("C07", func(c *core.Ctx) {
+		if c.CountRule("R07l") == 0 {
+			blankTokenRuleUnconditional(c, "R07l", "extensions/omniv21/fileformat/edi")
+		}
+	})
+}
